@@ -93,6 +93,11 @@ func (us unstakeTx) Validate(ctx *action.Context, tx action.SignedTx) (bool, err
 		return false, action.ErrStakeAddressMismatch
 	}
 
+	// the amount counts whole OLT and is converted through an int64, it must fit
+	if !ust.Stake.Value.BigInt().IsInt64() {
+		return false, errors.Wrap(action.ErrInvalidAmount, ust.Stake.String())
+	}
+
 	coin := ust.Stake.ToCoinWithBase(ctx.Currencies)
 	if coin.LessThanEqualCoin(coin.Currency.NewCoinFromInt(0)) {
 		return false, action.ErrInvalidAmount
